@@ -121,6 +121,17 @@ def sweep_impl(rep, tier, seed):
                     rep.check(close(out["fch1"], float(freqs[4 + 4 * i]), 1e-10) and out["nchans"] == 4 and abs(out["tstart"] - t0) < US5,
                               "extract_bands: band header (fch1 of first copied channel, nchans, tstart)", function="base.py::Filterbank.extract_bands",
                               input=dict(fch1=fch1, foff=foff, band=i), observed=dict(fch1=out["fch1"], tstart=out["tstart"]), required=float(freqs[4 + 4 * i]))
+            # ---- a time series derived from the 8-bit file, written as .tim: the header must declare the 32-bit depth on disk
+            rep.case(("to_tim", foff))
+            try:
+                ts_ = fil.read_chan(3, start=2, nsamps=20, quiet=True)
+                ptim = ts_.to_tim(os.path.join(tmp, "chan3.tim"))
+                out = read_out(ptim)
+                rep.check(out["nbits"] == 32 and out["nchans"] == 1 and out["X"].shape[0] == 20 and out["whole"],
+                          "to_tim: header nbits / nsamples do not describe the float32 data on disk", function="header.py::Header.prep_outfile",
+                          input=dict(foff=foff), observed=dict(nbits=out["nbits"], nsamples=int(out["X"].shape[0])), required=dict(nbits=32, nsamples=20))
+            except Exception as exc:  # noqa: BLE001
+                rep.fail(f"to_tim raised {type(exc).__name__}", function="timeseries.py::TimeSeries.to_tim", input=dict(foff=foff), observed=str(exc)[:120])
             # ---- block / time series methods
             blk = fil.read_block(4, 24)
             for (ff, tf) in ((1, 2), (2, 3), (4, 1)):
